@@ -2569,6 +2569,12 @@ static iwrc _jbl_target_apply_patch(struct jbl_node *target, const struct jbl_pa
         return JBL_ERROR_PATCH_NOVALUE;
       }
       memmove(target, value, sizeof(*value));
+    } else if ((op == JBP_COPY) || (op == JBP_MOVE)) { // The value at `from` becomes the whole document
+      value = _jbl_node_find(target, ex->from, 0, ex->from ? ex->from->cnt : 0);
+      if (!value) {
+        return JBL_ERROR_PATH_NOTFOUND;
+      }
+      memmove(target, value, sizeof(*value));
     }
   } else { // Not a root
     if ((op == JBP_REMOVE) || (op == JBP_REPLACE)) {
